@@ -43,6 +43,13 @@ KeysOK(e) == /\ HexToBytes(e.pk)  = EdPubFromSeed(HexToBytes(e.seed))      \* th
              /\ HexToBytes(e.pk2) = EdPubFromSeed(HexToBytes(e.seed2))
              /\ e.pk # e.pk2
 
+\* requested extended actions (wallet v5r1, events built through CreateSignedMsgBodyCell) in the shape Extract returns
+XAct(x) == IF x.kind = "sigauth" THEN [kind |-> "sigauth", wc |-> <<>>, addr |-> <<>>, allowed |-> IF x.allowed THEN 1 ELSE 0]
+           ELSE [kind |-> x.kind, wc |-> SDec(ToString(x.wc), 8), addr |-> HexBits(x.addr), allowed |-> 0]
+XActs(xs) == [i \in 1..Len(xs) |-> XAct(xs[i])]
+XReq(e) == IF Has(e, "xreq") THEN XActs(e.xreq) ELSE <<>>
+MsgTypeOf(e) == IF Has(e, "mt") THEN e.mt ELSE "ext"
+
 \* --------------------------------------------------- requested message vs message found
 \* request by fields (Body events); RT / RI = table and infos of the cells mentioned by the request (0-based rows)
 FieldsMatch(T, I, m, rq, RT, RI) ==
@@ -82,10 +89,11 @@ BodyChecks(e) ==
       reversed == ex.ok /\ Len(ex.msgs) = n /\ \A i \in 1..n : FieldsMatch(T, I, ex.msgs[i], e.req[n + 1 - i], RT, RI)
       opw == IF e.mt = "int" THEN OpSignedInternal ELSE OpSignedExternal
       \* the specification's two formulations agree (BodyLayoutOK / SignedPart on the whole table vs the clause-wise reading)
-      prm == [wid |-> WalletIdBits(ver, e.opts), vu |-> e.vu, seqno |-> e.seqno, op |-> opw, msgs |-> IF ex.ok THEN MsgsOf(I, ex) ELSE <<>>]
+      prm == [wid |-> WalletIdBits(ver, e.opts), vu |-> e.vu, seqno |-> e.seqno, op |-> opw, msgs |-> IF ex.ok THEN MsgsOf(I, ex) ELSE <<>>,
+              ext |-> XReq(e)]
       clausewise == /\ ex.ok /\ ex.wid = prm.wid /\ ex.vu = UDec(e.vu, 32)
                     /\ (Family(ver) # "highload" => ex.seqno = UDec(e.seqno, 32)) /\ (IsV5(ver) => ex.op = opw)
-                    /\ Len(ex.msgs) <= MaxMsgs(ver)
+                    /\ Len(ex.msgs) <= MaxMsgs(ver) /\ ex.ext = XReq(e)
       self == (Len(T) <= 80 /\ HasSignature(sl)) =>
                  /\ ReprHash(InfoTable(SignedPart(ver, T))[1]) = SignedHash(ver, T, I, sl)
                  /\ BodyLayoutOK(ver, T, prm) = clausewise
@@ -96,6 +104,7 @@ BodyChecks(e) ==
         <<"expiry",   ex.ok => ex.vu = UDec(e.vu, 32)>>,
         <<"seqno",    (ex.ok /\ Family(ver) # "highload") => ex.seqno = UDec(e.seqno, 32)>>,
         <<"op",       (ex.ok /\ IsV5(ver)) => ex.op = opw>>,
+        <<"xact",     ex.ok => ex.ext = XReq(e)>>,
         <<"msgs",     ex.ok => (straight \/ reversed)>>,
         <<"order",    ex.ok => (straight \/ ~reversed \/ (IsV5(ver) /\ PrintT(<<"NOTE", l, "v5-outlist-reversed", n>>)))>>,
         <<"verify",   Verifies(ver, T, I, sl, HexToBytes(e.pk))>>,
@@ -139,7 +148,8 @@ SendChecks(e) ==
         <<"wid",      ex.ok => ex.wid = WalletIdBits(ver, e.opts)>>,
         <<"expiry",   ex.ok => ex.vu = UDec(e.vu, 32)>>,
         <<"seqno",    (ex.ok /\ Family(ver) # "highload") => ex.seqno = UDec(e.seqno, 32)>>,
-        <<"op",       (ex.ok /\ v5) => ex.op = OpSignedExternal>>,
+        <<"op",       (ex.ok /\ v5) => ex.op = (IF MsgTypeOf(e) = "int" THEN OpSignedInternal ELSE OpSignedExternal)>>,
+        <<"xact",     ex.ok => ex.ext = XReq(e)>>,
         <<"msgs",     ex.ok => (straight \/ reversed)>>,
         <<"order",    ex.ok => (straight \/ ~reversed \/ (IsV5(ver) /\ PrintT(<<"NOTE", l, "v5-outlist-reversed", n>>)))>>,
         <<"verify",   Verifies(ver, T, I, sl, HexToBytes(e.pk))>>,
@@ -154,7 +164,8 @@ SendChecks(e) ==
                           /\ LibWid(ver, lb.wid) = WalletIdBits(ver, e.opts)
                           /\ (IF Family(ver) = "highload" THEN SubSeq(UDec(lb.qid, 64), 1, 32) = UDec(e.vu, 32)
                                                           ELSE lb.vu = e.vu /\ lb.seqno = e.seqno)
-                          /\ (v5 => lb.st = "SignedExternal")
+                          /\ (v5 => lb.st = (IF MsgTypeOf(e) = "int" THEN "SignedInternal" ELSE "SignedExternal"))
+                          /\ (Has(lb, "xacts") => XActs(lb.xacts) = XReq(e))
                           /\ Len(lb.modes) = n /\ Len(lb.mrows) = n
                           /\ [i \in 1..n |-> <<lb.modes[i], ReprHash(EI[lb.mrows[i] + 1])>>] = want>>,
         <<"lib:extract",  /\ lb.xerr = "" /\ Len(lb.xmodes) = n /\ Len(lb.xrows) = n
